@@ -4,6 +4,7 @@ from collections.abc import Iterable
 from formulaic.utils.code import format_expr, sanitize_variable_names
 
 from ..types.token import Token
+from ..utils import exc_for_token
 
 
 def sanitize_tokens(tokens: Iterable[Token]) -> Iterable[Token]:
@@ -20,7 +21,13 @@ def sanitize_tokens(tokens: Iterable[Token]) -> Iterable[Token]:
             # (a quoted `.` is the name of a column)
             token.kind = Token.Kind.OPERATOR
         if token.kind is Token.Kind.PYTHON:
-            token.token = sanitize_python_code(token.token)
+            try:
+                token.token = sanitize_python_code(token.token)
+            except (RecursionError, MemoryError, ValueError) as e:
+                # (well-formed or not, Python itself cannot read this fragment)
+                raise exc_for_token(
+                    token, f"Python expression could not be parsed: {e}"
+                ) from e
         yield token
 
 
